@@ -199,6 +199,12 @@ func (it *treeIterator) Seek(key node.Key) {
 	}
 
 	it.reset()
+	// The length of a key in bits must fit the depth type, otherwise it wraps around. Seek keys
+	// also arrive from remote peers (SyncIterate, SyncGetPrefixes).
+	if len(key) > node.MaxKeyLength {
+		it.setError(ErrKeyTooLong)
+		return
+	}
 	err := it.doNext(it.tree.cache.pendingRoot, 0, node.Key{}, key, visitBefore)
 	if err != nil {
 		// Make sure to invalidate the iterator on error.
